@@ -104,6 +104,7 @@ deriving Repr, DecidableEq
 
 inductive UOp
   | create | submit (t : Tid) | cancel (t : Tid) | shutdown (wait kill : Bool) | drop | pyexit
+  | idle                             -- the thread does something unrelated for a while
 deriving Repr, DecidableEq
 
 inductive UPc
@@ -543,6 +544,7 @@ def stepM (s : St) (v : Variant) : Option St :=
 def uDispatch (s : St) (k : Nat) (op : UOp) : St :=
   match op with
   | .create => uNext { s with created := true, held := true, refs := 1 } k
+  | .idle => uNext s k
   | .submit t =>
       if s.held then setU { s with refs := s.refs + 1 } k (.subAcqShut t) else uNext s k
   | .cancel t =>
